@@ -1,5 +1,6 @@
 import Originium.Model.Wal
 import Originium.Model.Pool
+import Originium.Model.CodecTie
 /-! # C11 — on-disk encodings round-trip exactly and stay intact after the encoder returns
 
 All layouts are written out byte for byte in `Model/Codec*.lean` and `Model/Wal.lean`; S2 compression
@@ -90,8 +91,22 @@ theorem C11_alias_witness : ¬ Pool.Safe (Pool.run [.encodeAlias]) ∧
 /-- non-vacuity: a two entry block with a shared prefix and an empty value meets the guard -/
 example : (encodeData [⟨[107, 64, 49], [1], false, 1⟩, ⟨[107, 64, 50], [], true, 2⟩]).isSome = true := by decide
 
+/-- the Go code itself (`Data.Encode`, translated from /repo on every run): it returns an error exactly when a key or a value
+    does not fit its 16-bit length field, and otherwise bytes that decompress and decode (the model's decoder, which the codec
+    suite compares with `Data.Decode` byte for byte) to exactly the entries it was given — every key and value byte string,
+    any shared prefix with the previous key, tombstone flag and version -/
+theorem C11_code_data_encode (z : S2) (hz : S2Law z) (es : List Entry) (hv : ∀ e ∈ es, e.version < 2 ^ 64) :
+    ((GenCodec.encodeData z.comp es).isSome = true ↔ ∀ e ∈ es, e.key.length ≤ 65535 ∧ e.value.length ≤ 65535) ∧
+    ∀ b, GenCodec.encodeData z.comp es = some b → (z.decomp b).bind (decData es.length []) = some es := by
+  rw [CodecTie.encodeData_eq]
+  refine ⟨by rw [Option.isSome_map]; exact encodeData_isSome es, ?_⟩
+  intro b hb
+  obtain ⟨raw, hraw, rfl⟩ := Option.map_eq_some_iff.mp hb
+  exact C11_data_roundtrip z hz es raw hraw hv
+
 #print axioms C11_data_guard
 #print axioms C11_data_roundtrip
+#print axioms C11_code_data_encode
 #print axioms C11_index_roundtrip
 #print axioms C11_footer_roundtrip
 #print axioms C11_footer_magic
